@@ -600,6 +600,10 @@ pub struct Run<'a> {
     t: ExprRef,
     f: ExprRef,
     pub st: Stats,
+    /// unrelated insertions made after the history (before its rebuild)
+    post: Vec<(ExprRef, Expr, Type, Key)>,
+    post_refs: FxHashSet<ExprRef>,
+    post_strs: FxHashSet<StringRef>,
     /// emulated oracle bug for self-tests of the check (never set in normal runs)
     pub sabotage: u32,
 }
@@ -612,7 +616,7 @@ impl<'a> Run<'a> {
     pub fn new(base: &'a Base) -> Result<Run<'a>, Fail> {
         let ctx = base.ctx.clone();
         let (t, f) = (ctx.get_true(), ctx.get_false());
-        let mut run = Run { ctx, base, map: Default::default(), recs: vec![], by_ref: Default::default(), strs: vec![], t, f, st: Default::default(), sabotage: 0 };
+        let mut run = Run { ctx, base, map: Default::default(), recs: vec![], by_ref: Default::default(), strs: vec![], t, f, st: Default::default(), post: vec![], post_refs: Default::default(), post_strs: Default::default(), sabotage: 0 };
         if t == f {
             return Err(fail("true-false", "get_true() and get_false() are the same reference".into()));
         }
@@ -660,7 +664,7 @@ impl<'a> Run<'a> {
                 if let Some(i) = self.by_ref.get(&r) {
                     return Err(fail("alias", format!("building the new expression {} returned {r:?}, the reference of the different expression {}", key.show(), self.recs[*i].key.show())));
                 }
-                if self.base.refs.contains(&r) {
+                if self.base.refs.contains(&r) || self.post_refs.contains(&r) {
                     return Err(fail("alias", format!("building the new expression {} returned {r:?}, the reference of an unrelated earlier insertion", key.show())));
                 }
                 if lookup_key != key {
@@ -747,19 +751,21 @@ impl<'a> Run<'a> {
             return Err(fail("true-false", "Expr::is_true/is_false no longer recognise the constants".into()));
         }
         // spot check of the unrelated insertions (all of them are checked at the end of the history)
-        let n = self.base.recs.len();
-        for i in [0usize, 1, 65_533, 65_534, 65_535, 65_536, n.wrapping_sub(1)] {
-            if let Some((r, e, t, _)) = self.base.recs.get(i)
-                && (self.ctx[*r] != *e || r.get_type(&self.ctx) != *t)
-            {
-                return Err(fail("unstable-filler", format!("unrelated earlier insertion {r:?} changed from {e:?} to {:?}", self.ctx[*r])));
+        for recs in [&self.base.recs, &self.post] {
+            let n = recs.len();
+            for i in [0usize, 1, 65_533, 65_534, 65_535, 65_536, n.wrapping_sub(1)] {
+                if let Some((r, e, t, _)) = recs.get(i)
+                    && (self.ctx[*r] != *e || r.get_type(&self.ctx) != *t)
+                {
+                    return Err(fail("unstable-filler", format!("unrelated earlier insertion {r:?} changed from {e:?} to {:?}", self.ctx[*r])));
+                }
             }
         }
         Ok(())
     }
 
     fn full_base_check(&self) -> Result<(), Fail> {
-        for (r, e, t, k) in self.base.recs.iter() {
+        for (r, e, t, k) in self.base.recs.iter().chain(self.post.iter()) {
             if self.ctx[*r] != *e || r.get_type(&self.ctx) != *t {
                 return Err(fail("unstable-filler", format!("unrelated earlier insertion {r:?} changed from {e:?} to {:?}", self.ctx[*r])));
             }
@@ -783,7 +789,7 @@ impl<'a> Run<'a> {
                 if let Some((n, _)) = self.strs.iter().find(|(_, o)| *o == sr) {
                     return Err(fail("string-alias", format!("string({s:?}) returned {sr:?}, the reference of the different string {n:?}")));
                 }
-                if self.base.strs.contains(&sr) {
+                if self.base.strs.contains(&sr) || self.post_strs.contains(&sr) {
                     return Err(fail("string-alias", format!("string({s:?}) returned {sr:?}, the reference of an unrelated earlier string")));
                 }
                 self.strs.push((s.to_string(), sr));
@@ -804,7 +810,7 @@ impl<'a> Run<'a> {
                 }
                 Some(_) => {}
                 None => {
-                    if self.strs.iter().any(|(_, o)| *o == sr) || self.base.strs.contains(&sr) {
+                    if self.strs.iter().any(|(_, o)| *o == sr) || self.base.strs.contains(&sr) || self.post_strs.contains(&sr) {
                         return Err(fail("string-alias", format!("symbol {name} uses string reference {sr:?} which belongs to a different string")));
                     }
                     self.strs.push((name.to_string(), sr));
@@ -899,7 +905,10 @@ impl<'a> Run<'a> {
                                     v.words(),
                                     f.what
                                 );
-                                f.what = format!("{} [first failing check: {}]", f.what, f.class);
+                                let mut demo = Context::default();
+                                let r1 = demo.bv_lit(&pvcore::evalref::bv_to_baa(&t));
+                                let r2 = demo.bv_lit(&v);
+                                f.what = format!("{} [first failing check: {}; in a fresh context the canonical value of this number is interned as {r1:?} and this value as {r2:?}]", f.what, f.class);
                                 f.detail = String::new();
                                 f.class = "noncanonical-lit".into();
                             }
@@ -945,8 +954,17 @@ impl<'a> Run<'a> {
                     self.st.inapplicable += 1;
                     return Ok(None);
                 };
-                let refs: Vec<ExprRef> = args.iter().map(|a| a.0).collect();
-                let r = real_call(&mut self.ctx, *op, &refs, *via_b);
+                let mut refs: Vec<ExprRef> = args.iter().map(|a| a.0).collect();
+                let mut called = *op;
+                // self-tests of the check: emulate a context that confuses operand order (2) or
+                // fails to normalise an extension by zero (3)
+                if self.sabotage == 2 && *op == Op::And && refs[0] > refs[1] {
+                    refs.reverse();
+                }
+                if self.sabotage == 3 && *op == Op::SExt(0) {
+                    called = Op::SExt(1);
+                }
+                let r = real_call(&mut self.ctx, called, &refs, *via_b);
                 let w = ty_w(exp.ty());
                 if matches!(exp, Exp::Ref(..)) {
                     self.st.norm += 1;
@@ -959,20 +977,30 @@ impl<'a> Run<'a> {
 
     /// `k` more unrelated insertions after the history (names h<i>)
     fn post_fill(&mut self, k: usize) -> Result<(), Fail> {
-        let mut out = vec![];
-        let mut strs = FxHashSet::default();
+        let mut out = std::mem::take(&mut self.post);
+        let mut strs = std::mem::take(&mut self.post_strs);
+        let mut refs = std::mem::take(&mut self.post_refs);
         for i in 0..k {
-            let by_ref = &self.by_ref;
-            let base = self.base;
-            let c = filler_insert(&mut self.ctx, "h", i, |r| by_ref.contains_key(&r) || base.refs.contains(&r), &mut out, &mut strs)?;
+            let before = out.len();
+            let (by_ref, base) = (&self.by_ref, self.base);
+            let c = filler_insert(&mut self.ctx, "h", i, |r| by_ref.contains_key(&r) || base.refs.contains(&r) || refs.contains(&r), &mut out, &mut strs)?;
             self.st.calls += c;
-            for (r, _, _, key) in out.drain(..) {
-                if self.by_ref.contains_key(&r) {
-                    return Err(fail("filler-alias", format!("two different unrelated insertions share reference {r:?}")));
+            for rec in out[before..].iter() {
+                if !refs.insert(rec.0) {
+                    return Err(fail("filler-alias", format!("two different unrelated insertions share reference {:?}", rec.0)));
                 }
-                self.insert(r, key);
+                self.st.max_index = self.st.max_index.max(usize::from(rec.0));
+            }
+            if base.strs.iter().next().is_some()
+                && let Expr::BVSymbol { name, .. } = self.ctx[out[before].0]
+                && base.strs.contains(&name)
+            {
+                return Err(fail("filler-string", format!("fresh name h{i} got the StringRef of an earlier different string")));
             }
         }
+        self.post = out;
+        self.post_strs = strs;
+        self.post_refs = refs;
         self.sweep()
     }
 }
@@ -1279,6 +1307,7 @@ pub fn registry() -> BTreeMap<String, N> {
     let mut all = full_pool();
     all.extend(builder_pool());
     all.extend(core_pool());
+    all.extend(mini_pool());
     for (w, k, _) in crate::c12_lits::groups() {
         all.extend(route_pool(w, k));
     }
@@ -1308,25 +1337,72 @@ fn stage(name: &str, pool: &[N], len: usize, fill: usize, post: usize) -> Stage 
     Stage { name: format!("{name}/len{len}/pre{}/post{post}", FILLS[fill]), pool: pool.to_vec(), len, fill, post }
 }
 
+/// smallest pool (deepest histories on the large context)
+pub fn mini_pool() -> Vec<N> {
+    let keep = [
+        "sym.a.8.Direct", "sym.b.8.Direct", "asym.a.1.8.Direct", "sym.a.8.StrRef", "str.a", "lit.1.One.BitVecVal", "lit.8.Pat.AddWrap",
+        "lit.8.Pat.BitVecVal", "lit.65.P64.Words", "lit.65.P64.AddCarry",
+    ];
+    let mut v: Vec<N> = core_pool().into_iter().filter(|n| keep.contains(&n.name().as_str())).collect();
+    let l = leaves();
+    let (a8, b8, a1, aa) = (l.a8, l.b8, l.a1, l.arr_a);
+    v.extend(vec![
+        op(Op::Not, vec![a8.clone()]),
+        op(Op::ZExt(0), vec![a8.clone()]),
+        op(Op::Slice(7, 0), vec![a8.clone()]),
+        op(Op::Slice(3, 0), vec![a8.clone()]),
+        op(Op::And, vec![a8.clone(), b8.clone()]),
+        op(Op::And, vec![b8.clone(), a8.clone()]),
+        op(Op::Eq, vec![a8.clone(), b8.clone()]),
+        op(Op::Concat, vec![a8.clone(), b8.clone()]),
+        op(Op::Store, vec![aa.clone(), a1.clone(), a8.clone()]),
+        op(Op::Distinct, vec![a8.clone(), b8.clone()]),
+        N::Op(Op::And, vec![a8.clone(), b8.clone()], true),
+        op(Op::Not, vec![N::Prev(1)]),
+        op(Op::And, vec![N::Prev(1), N::Prev(2)]),
+        op(Op::Eq, vec![N::Prev(1), N::Prev(1)]),
+    ]);
+    v
+}
+
+/// 16 elements: the deepest histories on the large context
+pub fn micro_pool() -> Vec<N> {
+    let keep = [
+        "sym.a.8.Direct", "sym.b.8.Direct", "asym.a.1.8.Direct", "sym.a.8.StrRef", "str.a", "lit.8.Pat.AddWrap", "lit.8.Pat.BitVecVal",
+        "lit.65.P64.Words", "lit.65.P64.AddCarry", "not(sym.a.8.Direct)", "slice7_0(sym.a.8.Direct)", "and(sym.a.8.Direct,sym.b.8.Direct)",
+        "and(sym.b.8.Direct,sym.a.8.Direct)", "B.and(sym.a.8.Direct,sym.b.8.Direct)", "not(prev1)", "and(prev1,prev2)",
+    ];
+    let v: Vec<N> = mini_pool().into_iter().filter(|n| keep.contains(&n.name().as_str())).collect();
+    assert_eq!(v.len(), keep.len(), "micro pool names");
+    v
+}
+
 pub fn stages(tier: Tier) -> Vec<Stage> {
     let mut out = vec![];
+    let thorough = tier.is_thorough();
     let full = full_pool();
     let mut fullb = full.clone();
     fullb.extend(builder_pool());
     let core = core_pool();
+    let mini = mini_pool();
+    let micro = micro_pool();
     let groups = crate::c12_lits::groups();
+    let post = |fill: usize| FILLS[fill].min(1);
+    let post_big = |fill: usize| FILLS[fill];
     // 1. literal routes, one group at a time: all sequences of routes to the same number
-    let lit_len = if tier.is_thorough() { 4 } else { 3 };
+    //    (fresh / 1 insertion: up to 3 (quick) or 4 (thorough) routes; large context: 1 route
+    //    (quick), 2 routes, and 3 routes for the multi-word numbers at widths 65 and 129 (thorough))
+    let lit_len = if thorough { 4 } else { 3 };
     for len in 1..=lit_len {
-        for (w, k, _) in groups.iter() {
+        for (w, k, t) in groups.iter() {
             let pool = route_pool(*w, *k);
             for fill in 0..3 {
-                // the large context for sequences up to 2 (quick) / 3 (thorough)
-                if fill == 2 && len + 1 > lit_len {
+                let multiword = (*w == 65 || *w == 129) && t.v.bits() > 64;
+                let big_ok = len == 1 || (thorough && (len == 2 || (len == 3 && multiword)));
+                if fill == 2 && !big_ok {
                     continue;
                 }
-                // the deepest level over the routes that do arithmetic only in the thorough tier
-                out.push(stage(&format!("lit[{w},{k:?}]"), &pool, len, fill, if len == 1 { FILLS[fill] } else { FILLS[fill].min(1) }));
+                out.push(stage(&format!("lit[{w},{k:?}]"), &pool, len, fill, post(fill)));
             }
         }
     }
@@ -1335,31 +1411,60 @@ pub fn stages(tier: Tier) -> Vec<Stage> {
         for k in crate::c12_lits::KINDS {
             let pool = cross_pool(k);
             for fill in 0..3 {
-                if fill == 2 && len == 3 && !tier.is_thorough() {
+                if fill == 2 && len == 3 && !thorough {
                     continue;
                 }
-                out.push(stage(&format!("cross[{k:?}]"), &pool, len, fill, FILLS[fill].min(1)));
+                let big_rebuild = len == 1 && (thorough || matches!(k, Kind::Zero | Kind::P64));
+                out.push(stage(&format!("cross[{k:?}]"), &pool, len, fill, if big_rebuild { post_big(fill) } else { post(fill) }));
             }
         }
     }
-    // 3. general pool (symbols, strings, literals, every operator, calls on earlier results)
-    for len in 1..=2 {
-        for fill in 0..3 {
-            out.push(stage("full+builder", &fullb, len, fill, if len == 1 { FILLS[fill] } else { FILLS[fill].min(1) }));
-        }
-    }
+    // 3. general pools (symbols, strings, literals, every operator, calls on earlier results)
+    // single elements, rebuilt after as many further insertions as went before
     for fill in 0..3 {
-        out.push(stage("core", &core, 3, fill, FILLS[fill].min(1)));
+        if thorough {
+            out.push(stage("full+builder", &fullb, 1, fill, post_big(fill)));
+        } else {
+            out.push(stage("full+builder", &fullb, 1, fill, post(fill)));
+            out.push(stage("core", &core, 1, fill, post_big(fill)));
+        }
     }
     for fill in 0..2 {
-        out.push(stage("full", &full, 3, fill, fill));
+        out.push(stage("full+builder", &fullb, 2, fill, post(fill)));
     }
-    if tier.is_thorough() {
-        out.push(stage("full", &full, 3, 2, 1));
+    out.push(stage(if thorough { "full+builder" } else { "core" }, if thorough { &fullb } else { &core }, 2, 2, 1));
+    for fill in 0..3 {
+        out.push(stage("micro", &micro, 3, fill, post(fill)));
+    }
+    for fill in 0..2 {
+        out.push(stage("mini", &mini, 3, fill, post(fill)));
+        out.push(stage("core", &core, 3, fill, post(fill)));
+        out.push(stage("full", &full, 3, fill, post(fill)));
+    }
+    if thorough {
+        out.push(stage("mini", &mini, 3, 2, 1));
+        out.push(stage("core", &core, 3, 2, 1));
         for fill in 0..3 {
-            out.push(stage("core", &core, 4, fill, FILLS[fill].min(1)));
+            out.push(stage("micro", &micro, 4, fill, post(fill)));
+        }
+        for fill in 0..2 {
+            out.push(stage("mini", &mini, 4, fill, post(fill)));
+            out.push(stage("core", &core, 4, fill, post(fill)));
         }
     }
+    // cheap and broad first, so that a budget cap removes depth before breadth
+    let prio = |s: &Stage| -> u32 {
+        let lit = s.name.starts_with("lit[") || s.name.starts_with("cross[");
+        match (lit, s.len) {
+            (false, 1) | (false, 2) => 0,
+            (false, 3) if s.name.starts_with("micro") => 0,
+            (true, 1) | (true, 2) => 1,
+            (false, 3) => 2,
+            (true, 3) => 3,
+            _ => 4,
+        }
+    };
+    out.sort_by_key(prio);
     out
 }
 
@@ -1529,7 +1634,7 @@ fn run_stage(si: usize, st: &Stage, bases: &Bases, budget: &Budget, rp: &Reporte
     let total = (n as u64).pow(st.len as u32);
     let base = bases.get(FILLS[st.fill]);
     let stop = std::sync::atomic::AtomicBool::new(false);
-    let chunk: u64 = if FILLS[st.fill] == BIG_FILL { 16 } else { 1024 };
+    let chunk: u64 = if st.post == BIG_FILL || FILLS[st.fill] == BIG_FILL { 1 } else { 1024 };
     let n_chunks = total.div_ceil(chunk);
     let acc = (0..n_chunks)
         .into_par_iter()
@@ -1599,6 +1704,33 @@ pub fn run(opts: &Opts, rep: &Report) {
     if big.recs.len() <= 65_536 || big.strs.len() <= 65_536 {
         eprintln!("MACHINERY: the large context does not pass the 2^16 mark ({} nodes, {} strings)", big.recs.len(), big.strs.len());
         std::process::exit(2);
+    }
+    if std::env::var("C12_BENCH").is_ok() {
+        let t0 = std::time::Instant::now();
+        for _ in 0..50 {
+            let c = big.ctx.clone();
+            std::hint::black_box(&c);
+        }
+        eprintln!("clone+drop: {:.2} ms", t0.elapsed().as_secs_f64() * 20.0);
+        let t0 = std::time::Instant::now();
+        let run = Run::new(&big).unwrap();
+        for _ in 0..50 {
+            run.full_base_check().unwrap();
+        }
+        eprintln!("full_base_check: {:.2} ms", t0.elapsed().as_secs_f64() * 20.0);
+        let t0 = std::time::Instant::now();
+        for _ in 0..50 {
+            run.sweep().unwrap();
+        }
+        eprintln!("sweep: {:.4} ms", t0.elapsed().as_secs_f64() * 20.0);
+        let l = leaves();
+        let e = op(Op::And, vec![l.a8.clone(), l.b8.clone()]);
+        let t0 = std::time::Instant::now();
+        for _ in 0..50 {
+            let o = run_history(&big, &[&e, &e], 1, 0);
+            assert!(o.fail.is_none());
+        }
+        eprintln!("history: {:.2} ms", t0.elapsed().as_secs_f64() * 20.0);
     }
     let rp = Reporter { rep, bases: &bases, seen: Default::default(), sabotage: sabotage_level() };
     let sts = stages(tier);
